@@ -31,17 +31,24 @@ theorem serOpt_length (o : NdOpt) (hll : ∀ mac, o = .sourceLL mac → mac.leng
   | mtu m => simp [serOpt, u32_length]
   | prefixInfo p => simp [serOpt, u32_length, u128_length]
   | rdnss lt servers =>
+    have hone : ∀ c : List Nat, (rdnssOpt lt c).length % 8 = 0 := by
+      intro c
+      have : (c.flatMap u128).length % 8 = 0 := flatMap_length_mod8 _ _ (fun x _ => by simp [u128_length])
+      simp only [rdnssOpt, List.length_append, List.length_cons, List.length_nil, u32_length]; omega
     simp only [serOpt]
     split
     · rfl
-    · have : (servers.flatMap u128).length % 8 = 0 := flatMap_length_mod8 _ _ (fun x _ => by simp [u128_length])
-      simp only [List.length_append, List.length_cons, List.length_nil, u32_length]; omega
+    · split
+      · exact hone servers
+      · exact flatMap_length_mod8 _ _ (fun c _ => hone c)
   | dnssl lt domains =>
     simp only [serOpt]
     split
     · rfl
-    · have := padTo8_length (domains.flatMap encodeDomain) 0
-      simp only [List.length_append, List.length_cons, List.length_nil, u32_length]; omega
+    · split
+      · rfl
+      · have := padTo8_length (domains.flatMap encodeDomain) 0
+        simp only [List.length_append, List.length_cons, List.length_nil, u32_length]; omega
   | pref64 lt len pfx =>
     simp only [serOpt]
     cases plc len with
@@ -49,7 +56,10 @@ theorem serOpt_length (o : NdOpt) (hll : ∀ mac, o = .sourceLL mac → mac.leng
     | some c => simp [u16_length, u128_length]
   | captivePortal url =>
     have := padTo8_length url 2
-    simp only [serOpt, List.length_append, List.length_cons, List.length_nil]; omega
+    simp only [serOpt]
+    split
+    · rfl
+    · simp only [List.length_append, List.length_cons, List.length_nil]; omega
 
 /-- **C17 (lengths).** The message length and every option length are multiples of 8 octets. -/
 theorem C17_length_multiple_of_8 (a : Advert) (hll : ∀ o ∈ a.options, ∀ mac, o = .sourceLL mac → mac.length = 6) :
@@ -203,6 +213,18 @@ theorem C17_decode_is_documented (top : Top) (i : Intf) (ll : Option Bytes) (mtu
     (h : CfgOK top i ll mtu self6) :
     RaRfc.decode (serialise (build top i ll mtu self6 dl)) = some (RaRfc.expected top i ll mtu self6 dl) := by
   rw [decode_serialise _ h.hop (cfgok_options h dl), specRa_build _ _ _ _ _ _ (fun p hp => (h.prefixes p hp).1)]
+
+open Erbium.RaCodec in
+/-- **C17 (never silently wrapped), for every configuration whatsoever** — any number of DNS servers, any list of
+    search domains, any URL: the RDNSS addresses are sent as a sequence of options (127 addresses each at most), the
+    DNSSL and the captive-portal option are sent whole or not at all (with a warning), and every option that is sent
+    states its true length in its length octet. (`WellFramed b`: `b` is empty or `type :: l :: body` with
+    `0 < l < 256` and `|body| + 2 = 8·l`.) Depends on the three narrowing sites of the serialiser being the checked
+    ones (`Generated.Ra.*`, extracted). -/
+theorem C17_option_lengths_never_wrap (lt : Nat) (servers : List Nat) (domains : List Bytes) (url : Bytes) :
+    (∃ parts : List Bytes, serOpt (.rdnss lt servers) = parts.flatten ∧ ∀ p ∈ parts, WellFramed p) ∧
+    WellFramed (serOpt (.dnssl lt domains)) ∧ WellFramed (serOpt (.captivePortal url)) :=
+  ⟨rdnss_never_wraps lt servers, dnssl_never_wraps lt domains, captive_never_wraps url⟩
 
 open Erbium.RaCodec in
 /-- the same for any advertisement, however it was built: serialise, then decode by the RFCs, gives its values -/
